@@ -98,6 +98,21 @@ func (d *driver) base(sc *fx.Scenario) baseInfo {
 	return bi
 }
 
+// modelOpFailed reports whether the m-th connection operation of the trace failed.
+func modelOpFailed(tr []fx.Ev, m int) bool {
+	n := 0
+	for _, e := range tr {
+		if e.K != "r" && e.K != "w" {
+			continue
+		}
+		if n == m {
+			return !e.OK
+		}
+		n++
+	}
+	return false
+}
+
 func sname(sc *fx.Scenario, what string) string {
 	return "s_" + strings.NewReplacer("-", "_", "~", "_").Replace(sc.Name) + "_" + what
 }
@@ -110,30 +125,43 @@ func (d *driver) coqCase(sc *fx.Scenario, f fx.Fault, obs *fx.Obs) string {
 	if obs.Panic != "" || obs.TimedOut {
 		return ""
 	}
-	fault, cancel := "FNone", "None"
+	fault, cancel, entry := "FNone", "None", false
 	clear := sname(sc, "clear")
+	blocked := f.Cancel == "blocked"
 	switch f.Kind {
 	case "cut":
 		if obs.Fired {
 			fault = fmt.Sprintf("FCut %d%%nat", obs.FiredModel)
 		}
-	case "transient", "wblock":
+	case "transient":
 		if obs.Fired {
 			fault = fmt.Sprintf("FTransient %d%%nat", obs.FiredModel)
 		}
+	case "wblock":
+		// the blocked operation fails because the cancellation expires the deadline (below)
 	case "eof", "silent":
 		if f.B < obs.ClearLen {
 			k, extra := sc.Clear.Cut(f.B)
+			if extra != "" && f.Cancel == "atlimit" {
+				// the cut falls inside character data: the tokenizer performs the Read that
+				// fails before it hands out the partial text, the model hands out the text
+				// first; with a ctx test in between the two orders differ in the trace. The
+				// oracle still judges the run; no model case.
+				return ""
+			}
 			clear = fmt.Sprintf("(firstn %d%%nat %s)", k, clear)
 			if extra != "" {
 				clear = fmt.Sprintf("(%s ++ [%s])", clear, extra)
 			}
-		} else if obs.Fired {
+		} else if obs.Fired && !(blocked && obs.Cancelled) && f.Cancel != "atlimit" {
 			fault = fmt.Sprintf("FTransient %d%%nat", obs.FiredModel)
 		}
 	}
 	if obs.Cancelled && obs.CancelModel >= 0 {
 		cancel = fmt.Sprintf("(Some %d%%nat)", obs.CancelModel)
+		// entry: the operation at which the context was cancelled had not completed (it was
+		// entered or blocked, or - inside the TLS phase - only part of it had been done)
+		entry = modelOpFailed(obs.Trace, obs.CancelModel) || f.Cancel == "idle" || blocked
 	}
 	var calls, trace []string
 	for _, v := range obs.Calls {
@@ -146,8 +174,8 @@ func (d *driver) coqCase(sc *fx.Scenario, f fx.Fault, obs *fx.Obs) string {
 	if obs.HasErr {
 		result = "CErr"
 	}
-	return fmt.Sprintf("mkCase %s (mkPlan (%s) %s %s) %d%%N %s %s %s %s %d%%N %s",
-		sname(sc, "cfg"), fault, cancel, hx.CoqBool(!sc.HSBad), sc.InitBits(), clear, sname(sc, "tls"),
+	return fmt.Sprintf("mkCase %s (mkPlan (%s) %s %s %s %s) %d%%N %s %s %s %s %d%%N %s",
+		sname(sc, "cfg"), fault, cancel, hx.CoqBool(entry), hx.CoqBool(!sc.RWOnly), hx.CoqBool(!sc.HSBad), sc.InitBits(), clear, sname(sc, "tls"),
 		coqList(calls), result, obs.State, coqList(trace))
 }
 
@@ -163,7 +191,11 @@ func (d *driver) oracle(sc *fx.Scenario, f fx.Fault, obs *fx.Obs, bi *baseInfo) 
 		return
 	}
 	if obs.TimedOut {
-		if f.Cancel == "blocked" {
+		if f.Cancel == "atlimit" && obs.Cancelled {
+			d.fail(sc, f, obs, "outlives-cancellation/between-reads-then-silence", "the context was cancelled between two reads, the peer then stayed silent, and the call did not return on a connection with deadlines")
+		} else if f.Cancel == "atlimit" {
+			// the peer fell silent before the context was cancelled: nothing to hold against the library
+		} else if f.Cancel == "blocked" {
 			d.fail(sc, f, obs, "outlives-cancellation/"+f.Kind, "the call did not return after the context was cancelled while it was blocked on a connection with deadlines")
 		} else {
 			d.fail(sc, f, obs, "hang/"+f.Kind, "the call did not return within the watchdog")
@@ -186,6 +218,9 @@ func (d *driver) oracle(sc *fx.Scenario, f fx.Fault, obs *fx.Obs, bi *baseInfo) 
 		}
 		if !sc.WantOK && len(obs.CBErrs) == 0 {
 			d.fail(sc, f, obs, "nil-error-after-failed-step/protocol", "the handshake contains a step that must fail and session establishment returned a nil error")
+		}
+		if obs.Cancelled && (f.Cancel == "after" || f.Cancel == "atlimit") {
+			d.fail(sc, f, obs, "cancel-ignored/between-operations", "the context was cancelled between two connection operations, before negotiation completed, and session establishment returned a nil error")
 		}
 		if obs.Cancelled && f.Cancel == "idle" {
 			class := "after-last-stream-header"
@@ -300,14 +335,25 @@ func (d *driver) enumerate(sc *fx.Scenario) {
 	for c := 0; c < nRaw; c++ {
 		d.one(sc, fx.Fault{Cancel: "idle", CancelAt: c}, &bi)
 	}
+	// cancellation between two operations: when operation c has succeeded
+	for c := 0; c < nRaw; c++ {
+		d.one(sc, fx.Fault{Cancel: "after", CancelAt: c}, &bi)
+	}
 	if sc.RWOnly {
 		return
 	}
-	// a silent peer / a blocking write, and cancellation once the call blocks
 	bstride := stride
 	if !d.thor && bstride < 3 {
 		bstride = 3
 	}
+	// ... and the peer falls silent right then: the next read must not block for good
+	for b := 1; b < bi.total; b++ {
+		if b%bstride != 0 {
+			continue
+		}
+		d.one(sc, fx.Fault{Kind: "silent", B: b, Cancel: "atlimit"}, &bi)
+	}
+	// a silent peer / a blocking write, and cancellation once the call blocks
 	for b := 0; b < bi.total; b++ {
 		if b%bstride != 0 {
 			continue
